@@ -6,7 +6,7 @@ CFG = {
     "prop_file": "theories/Properties/C12.v",
     "theory_files": ["theories/Graph/Schema.v", "theories/Graph/SchemaProofs.v",
                      "theories/Graph/Instance.v", "theories/Graph/InstanceProofs.v",
-                     "theories/Graph/Values.v", "theories/Graph/ValuesProofs.v", "theories/Graph/SortedProofs.v"],
+                     "theories/Graph/Values.v", "theories/Graph/ValuesProofs.v", "theories/Graph/SortedProofs.v", "theories/Graph/TypedProofs.v"],
     "level_text": "Coq theorems, for every edit history over every well-formed node-type table, about an executable "
                   "model of graph.Instance (id table, scalar/array ports, parameter records per parameter kind, "
                   "producers, metadata tree), EncodeToAppSchema (dependencies sorted by the code's comparator on "
@@ -18,7 +18,13 @@ CFG = {
                   "fresh); a Gallina printer render : schema -> JSON text (encoding/json MarshalIndent layout, "
                   "escaping; float text, base64 and type names delegated) with render(encode(decode(encode s))) = "
                   "render(encode s), string escaping read back exactly (prefix-free, injective), integer text "
-                  "injective; witnesses refuting the pinned comparator "
+                  "injective; a TYPED value layer (Graph/Values.v: per parameter kind the value set, the tree "
+                  "its MarshalJSON produces and the reading back; floats as number atoms with an IEEE-754 decoder deciding "
+                  "integer vs bit-pattern atoms, WebColor's hex text in full): every well-formed value of every kind is read "
+                  "back exactly, distinct values are saved differently, a parameter holding typed value x holds x after the "
+                  "reload; order invariants after any history (no two nodes share an id, no two producers a name, node / "
+                  "producer / top-level metadata tables in ascending bytewise key order, Go's string order is a strict total "
+                  "order); witnesses refuting the pinned comparator "
                   "(11 array connections) and the File over-read. The model is tied to the Go code on every run by "
                   "evaluating it (vm_compute) on random histories run against the real instance and generator.App, "
                   "and the property is judged directly on the implementation's before/after structures, artifact "
@@ -26,12 +32,15 @@ CFG = {
     "level_note": "Trusted: Coq kernel + vm_compute; hand-written model tied by differential correspondence only; JSON "
                   "text of a schema: the Gallina printer is compared byte for byte with App.Schema() on every history whose "
                   "file is <= 12 KiB and whose values avoid floats and U+2028/9 (about half of them), the rest is "
-                  "covered by the byte-for-byte S1 = S2 comparison only; injectivity of the whole printer is not proved; parameter VALUES are opaque trees to the model (per-type "
-                  "(de)serialisation is exercised by the harness only); PNG encoding is Go's",
+                  "covered by the byte-for-byte S1 = S2 comparison only; injectivity of the whole printer is not proved; parameter VALUES are "
+                  "opaque trees to the instance model, the typed layer says which trees they are (checked on every observed "
+                  "value: 'canonical'); decimal formatting of floats (strconv shortest digits), authors / webScene in the "
+                  "printer, CLI flag state are not modelled; PNG encoding is Go's",
     "technique": "Coq proof (invariant over operation histories, insertion-sort/replay commutation, decimal "
                  "injectivity) + vm_compute correspondence check",
     "design_ref": "DESIGN.md §4 C12, §5 entries 13, 21, 22, 23",
     "n_quick": 60, "n_thorough": 2000,
+    # round 4 additions to the rule are at the end of the text
     "rule": "random edit histories (create/delete/connect/disconnect incl. middle disconnects and whole-field clears/"
             "update/name/description/producer/set+delete metadata, ~3% rejected calls, ~8% READS in between: every "
             "artifact produced, Schema() and every ParameterData requested) in four flavours: general, one array "
@@ -47,14 +56,32 @@ CFG = {
             "create in most) is applied to the live and to the reloaded instance alike and both are compared "
             "again in full (op outcomes, structures, artifacts, file trees, bytes of 5 saves each). Plus fixed corner histories "
             "(decimal-width boundaries, one per picture encoding, multi-step uploads, warm caches, freed ids), the "
-            "observed type table, and every examples/graphs/*.json (load, save S1, load, save S2). distinct by "
-            "op list; non-trivial = at least two nodes and one saved dependency",
+            "observed type table, and every examples/graphs/*.json (load, save S1, load, save S2). Round 4: half of "
+            "all histories (and half of all continuations) end with save -> 1-2 edits of ONE kind -> save (all ten kinds "
+            "counted), and the live application's save made after the continuation is loaded into a third application "
+            "whose structure must equal the live one; producer names in 57 special forms (./x, a/../x, a//x, /x, x/, '', "
+            "blanks, back-slashes, case / NFC-NFD variants, control characters) incl. as prefixes of every flavour's own "
+            "names; special numbers (both zeros, subnormals, float64 / float32 / int range ends and beyond, 2^53+-1, "
+            "1e21 / 1e-6 format switches), special strings (NUL, controls, U+2028/9, BOM, U+10FFFF, combining, RTL, "
+            "JSON / HTML look-alikes, 255-2500 bytes) as values, names, descriptions, metadata values and keys; signed "
+            "disconnect indices; authors / webScene / special strings in the application header (1 history in 3); "
+            "6 + N/10 graphs BUILT IN CODE (App.Files -> AddProducer: ids by dependency walk, every Value[T] kind with "
+            "registered name / description / default / CLI) saved, loaded, compared (structure, artifacts, trees, "
+            "bytes). Fixed: 25 save-between histories (edit kind x parameter kind), all producer-name forms, special "
+            "values per kind, File payloads (empty, 1 byte, all 256 byte values), deep / empty / special metadata. "
+            "distinct by op list; non-trivial = at least two nodes and one saved dependency",
     "trusted": ["sha256 digests of saves/artifacts computed by the harness (Go crypto/sha256)",
                 "reading the saved file back into a tree is done by the harness with encoding/json + base64",
                 "the 'modulo' second case of an over-read history is produced by truncating the File values "
-                "through Instance.UpdateParameter in the reloaded instance; everything is then compared in full"],
-    "modelled": ["strings.ToLower/EqualFold on ASCII only; strconv.Atoi on unsigned digit strings only (dependency "
-                 "names are generated by fmt %d)",
+                "through Instance.UpdateParameter in the reloaded instance; everything is then compared in full (the same "
+                "cut is applied before the third load of a continuation's save is compared)",
+                "graphs built in code are judged on the implementation alone (CFile cases); the model does not cover "
+                "AddProducer / the dependency walk of buildIDsForNode"],
+    "modelled": ["strings.ToLower/EqualFold on ASCII only; strconv.Atoi on unsigned digit strings for saved dependency "
+                 "names (generated by fmt %d), with an optional sign for the index of a disconnect request",
+                 "a float value is the number atom the harness reads from encoding/json's text (int64 integer text -> "
+                 "integer, else float64 bits); which atoms a float64 yields is decided in Coq from the IEEE-754 bits, the "
+                 "decimal digits themselves are strconv's",
                  "sort.Slice modelled as insertion sort (unique result when the comparator is a strict total order "
                  "on the names, which the correspondence check observes)",
                  "deleting a node that others depend on is outside the property (model rejects, harness never does it)",
